@@ -1883,13 +1883,29 @@ async def _issuance_session(ctx: Ctx, batch: Batch, seed: int, force: dict):  # 
     from ipv8.peer import Peer
     from ipv8.test.mocking.endpoint import internet
     from ipv8.test.mocking.ipv8 import MockIPv8
+    import shutil
+    import tempfile
+    import vlib
+    from ipv8.attestation.schema.manager import SchemaManager
     rng = _random.Random(seed)
-    nodes = [MockIPv8("curve25519", AttestationCommunity, settings=AttestationSettings(working_directory=":memory:"))
-             for _ in range(2)]
-    attester, attestee = nodes[0].overlay, nodes[1].overlay
-    for ov in (attester, attestee):
+    # the attestee's wallet is a FILE-backed database: later the node is stopped and started again from that file
+    (vlib.VERIF / ".tmp_c18").mkdir(exist_ok=True)
+    wallet_dir = tempfile.mkdtemp(prefix="wallet_", dir=str(vlib.VERIF / ".tmp_c18"))
+    orig_defaults = SchemaManager.register_default_schemas
+
+    def defaults_plus_session_schemas(self):
+        # configuration of the deployment: the three exact hash modes at the smallest key size next to the defaults
+        # (they must be known while AttestationCommunity.__init__ reloads the stored keys)
+        orig_defaults(self)
         for name, params in SESSION_SCHEMAS.items():
-            ov.schema_manager.register_schema(name, params["algorithm"], dict(params))
+            self.register_schema(name, params["algorithm"], dict(params))
+
+    def start_node(directory):
+        with Patched((SchemaManager, "register_default_schemas", defaults_plus_session_schemas)):
+            return MockIPv8("curve25519", AttestationCommunity, settings=AttestationSettings(working_directory=directory))
+
+    nodes = [start_node(":memory:"), start_node(wallet_dir)]
+    attester, attestee = nodes[0].overlay, nodes[1].overlay
     addr = [n.endpoint.wan_address for n in nodes]
     plen = len(attester._prefix)  # noqa: SLF001
     inflight = []
@@ -2048,6 +2064,38 @@ async def _issuance_session(ctx: Ctx, batch: Batch, seed: int, force: dict):  # 
                     ctx.count("branch:issuance:attestation-complete")
                 else:
                     ctx.count("branch:issuance:partial")
+        # ---- persistence: what the wallet file holds, then the prover is stopped and started again from that file ---
+        rows = {bytes(row[0]): row for row in attestee.database.get_all()}
+        for r in reqs:
+            if "hash" not in r:
+                continue
+            row = rows.get(r["hash"])
+            if row is None or bytes(row[2]) != r["sk"].serialize() or bytes(row[3]).decode() != r["fmt"]:
+                ctx.oracle_fail("AttestationsDB.insert_attestation:stored-key",
+                                f"attribute {r['name']} ({r['fmt']}): the wallet row does not hold the secret key the "
+                                f"attestation was requested with (key column: "
+                                f"{'missing' if row is None else str(len(bytes(row[2]))) + ' bytes'}, secret key: "
+                                f"{len(r['sk'].serialize())} bytes)", dict(rp, attribute=r["name"]))
+            elif len(r["sk"].serialize()) < 2000:
+                batch.add(f"privunser {bytes(row[2]).hex()}", f"{key_ints(r['sk'])} {r['sk'].n} {r['sk'].t1}",
+                          tag="secret key read back from the wallet")
+        await nodes[1].stop()
+        internet.pop(addr[1], None)
+        nodes[1] = start_node(wallet_dir)
+        attestee = nodes[1].overlay
+        addr[1] = nodes[1].endpoint.wan_address
+        nodes[1].endpoint.send = (lambda address, packet, *a, **kw:
+                                  inflight.append((1, addr.index(address), packet)) if address in addr else None)
+        ctx.count("session:prover-restarted-from-wallet-file")
+        for r in reqs:
+            if "hash" not in r:
+                continue
+            st = attestee.attestation_keys.get(r["hash"])
+            if st is None or st[0] is None or st[0].serialize() != r["sk"].serialize() or st[1] != r["fmt"]:
+                ctx.oracle_fail("AttestationCommunity.__init__:key-not-restored",
+                                f"after a restart from the wallet file the prover has "
+                                f"{'no entry' if st is None else 'no usable key' if st[0] is None else 'another key'} "
+                                f"for attribute {r['name']} ({r['fmt']})", dict(rp, attribute=r["name"]))
         # ---- oracle 2: the same two nodes verify every attribute, format after format --------------------------------
         from ipv8.attestation.communication_manager import CommunicationChannel
         channel = CommunicationChannel(attester, None)
@@ -2109,6 +2157,7 @@ async def _issuance_session(ctx: Ctx, batch: Batch, seed: int, force: dict):  # 
         for node in nodes:
             await node.stop()
         internet.clear()
+        shutil.rmtree(wallet_dir, ignore_errors=True)
 
 
 def schema_config_round(ctx: Ctx):
@@ -2318,7 +2367,7 @@ REQUIRED_BRANCHES = [
     "channel:references:true-first", "channel:references:repeated-true-then-other", "channel:references:other-first",
     "config:history:mutate-dict-after-registration", "config:history:reuse-dict-for-second-schema",
     "config:history:other-manager-edits-its-default", "config:history:independent-dicts",
-    "config:verified:outside-own-range",
+    "config:verified:outside-own-range", "session:prover-restarted-from-wallet-file",
 ]
 
 
